@@ -22,6 +22,7 @@ static uint8_t  O1001; static uint8_t O2100=0; static uint8_t O2101=0; static ui
 static CO_HBCONS HB1={0,0,0,-1,100,5,0}; static CO_HBCONS HB2={0,0,0,-1,0,0,0}; static uint8_t O1016_0=2;
 static uint32_t TPDO_ID; static uint32_t RPDO_ID=0x205; static uint8_t RTYPE=1; static uint8_t TTYPE=254; static uint8_t N1=1;
 static uint16_t EVT=0, INH=0;
+static uint8_t STRBUF[16]="HelloWorld12"; static CO_OBJ_STR STR={0,STRBUF};
 static uint8_t DOMBUF[40]; static CO_OBJ_DOM DOM={0,20,DOMBUF};
 #define MAXD 64
 static CO_OBJ OD[MAXD];
@@ -61,6 +62,7 @@ static void mkdict(void){ nod=0; memset(OD,0,sizeof OD);
  add(CO_KEY(0x2100,0,CO_OBJ____PRW),CO_TUNSIGNED8,(CO_DATA)&O2100);
  add(CO_KEY(0x2101,0,CO_OBJ____PRW),CO_TUNSIGNED8,(CO_DATA)&O2101);
  add(CO_KEY(0x2200,0,CO_OBJ_____RW),CO_TDOMAIN,(CO_DATA)&DOM);
+ add(CO_KEY(0x2300,0,CO_OBJ_____RW),CO_TSTRING,(CO_DATA)&STR);
 }
 static void init(int tmrn){ CO_NODE_SPEC s; memset(&s,0,sizeof s); mkdict();
  s.NodeId=1;s.Baudrate=250000;s.Dict=OD;s.DictLen=MAXD;s.EmcyCode=ET;s.TmrMem=TM;s.TmrNum=tmrn;s.TmrFreq=1000;s.Drv=&DRV;s.SdoBuf=SBUF;
@@ -90,4 +92,9 @@ int main(int argc,char**argv){ int sc=atoi(argv[1]); setvbuf(stdout,0,_IONBF,0);
    CO_NODE_SPEC s; memset(&s,0,sizeof s); s.NodeId=1;s.Baudrate=250000;s.Dict=OD2;s.DictLen=MAXD;s.EmcyCode=ET;s.TmrMem=TM;s.TmrNum=16;s.TmrFreq=1000;s.Drv=&DRV;s.SdoBuf=SBUF; CONodeInit(&N,&s); printf("init err=%d\n",CONodeGetErr(&N)); CONodeStart(&N); nmt(1); printf("RESULT: RPDO0 ObjNum=%u\n",N.RPdo[0].ObjNum);} 
  if(sc==9){ init(16); uint8_t d[8]={0x22,0x00,0x22,0x00,1,2,3,4}; txn=0; rx(0x601,8,d); pump(); printf("RESULT: responses=%d first byte0=%02x (80=abort expected) server Obj=%p\n",txn,txlog[0].Data[0],(void*)N.Sdo[0].Obj);} 
  if(sc==10){ init(16); for(int i=0;i<20;i++) DOMBUF[i]=0xA0+i; uint8_t a[8]={0xA0,0x00,0x22,0x00,2,0,0,0}; rx(0x601,8,a); pump(); uint8_t st[8]={0xA3,0,0,0,0,0,0,0}; rx(0x601,8,st); pump(); uint8_t ab[8]={0x80,0x00,0x22,0x00,0,0,0,0x08}; rx(0x601,8,ab); pump(); printf("-- after client abort: Obj=%p State=%d; now A3h with no initiate\n",(void*)N.Sdo[0].Obj,N.Sdo[0].Blk.State); memset(DOMBUF,0,sizeof DOMBUF); txn=0; rx(0x601,8,st); pump(); printf("RESULT: frames emitted for A3h without initiate: %d (byte1 of first = %02x)\n",txn,txn?txlog[0].Data[1]:0);} 
+ if(sc==11){ init(16); uint8_t d[8]={0xC2,0x00,0x23,0x00,10,0,0,0}; txn=0; rx(0x601,8,d); pump(); printf("RESULT: block download initiate to a writable object whose type has no write function: responses=%d (1 expected), Blk.State=%d Obj=%p\n",txn,N.Sdo[0].Blk.State,(void*)N.Sdo[0].Obj); uint8_t e[8]={0x40,0x00,0x10,0x00,0,0,0,0}; txn=0; rx(0x601,8,e); pump(); printf("   next request (upload 1000h): responses=%d first byte=%02x\n",txn,txn?txlog[0].Data[0]:0);}
+ if(sc==13){ EVT=50; init(16); nmt(1); printf("operational: EvTmr=%d\n",N.TPdo[0].EvTmr); nmt(128); nmt(1); printf("preop->operational again: EvTmr=%d\n",N.TPdo[0].EvTmr); txn=0; for(int t=0;t<120;t++){ COTmrService(&N.Tmr); COTmrProcess(&N.Tmr);} printf("RESULT: TPDO frames in 120 ms with event time 50 ms: %d (2 expected)\n",txn);} 
+ if(sc==14){ init(3); int16_t a=COTmrCreate(&N.Tmr,5,0,cb,"A"); int16_t k=COTmrCreate(&N.Tmr,50,0,cb,"K"); int16_t b; for(int i=0;i<5;i++) COTmrService(&N.Tmr); printf("delete elapsed A -> %d (k=%d)\n",COTmrDelete(&N.Tmr,a),k); (void)b; printf("RESULT: delete of a not-pending id 2 while an emptied event waits in the elapsed list -> %d\n",COTmrDelete(&N.Tmr,2)); }
+ if(sc==15){ init(16); uint8_t g[8]={4,1,0,0,0,0,0,0}; rx(0x7E5,8,g); pump(); uint8_t a[8]={21,20,0,0,0,0,0,0}; rx(0x7E5,8,a); pump(); printf("LSS activate bit timing: Lss.Tmr=%d mode=%d\n",N.Lss.Tmr,CONmtGetMode(&N.Nmt)); CONmtReset(&N.Nmt,CO_RESET_COM); printf("after reset com: Lss.Tmr=%d mode=%d\n",N.Lss.Tmr,CONmtGetMode(&N.Nmt)); nmt(1); printf("NMT start: mode=%d (3=OPERATIONAL)\n",CONmtGetMode(&N.Nmt)); for(int t=0;t<50;t++){COTmrService(&N.Tmr);COTmrProcess(&N.Tmr);} printf("RESULT: 50 ms later mode=%d (3 expected; 2 = forced back to PRE-OPERATIONAL by the leaked LSS timer)\n",CONmtGetMode(&N.Nmt)); }
+ if(sc==16){ init(16); uint8_t d[1]={5}; rx(0x705,1,d); pump(); printf("monitoring node 5: HB1.Tmr=%d\n",HB1.Tmr); CONmtReset(&N.Nmt,CO_RESET_COM); printf("after reset com: chain=%p HB1.Tmr=%d\n",(void*)N.Nmt.HbCons,HB1.Tmr); int ev0=HB1.Event; for(int t=0;t<350;t++){COTmrService(&N.Tmr);COTmrProcess(&N.Tmr);} printf("RESULT: consumer chain after reset=%p (monitoring lost), heartbeat events raised by the leaked timer: %d\n",(void*)N.Nmt.HbCons,HB1.Event-ev0); }
  return 0; }
